@@ -821,3 +821,74 @@ def index_provenance_rule(m, rid):
                    "lost or repeated" % (q, A.text(n), n.value.id, i, i, "`/`".join(recv)), m.loc(f, n))
     r.ob(True, "%d slices by a searched offset, all on the searched string" % r.instances)
     return r
+
+
+# ------------------------------------------------------------------------------------------------
+# C10.R9: nodes compare by value, so positions in a collection of nodes are found by identity
+# ------------------------------------------------------------------------------------------------
+EQ_LIST_OPS = ("remove", "index", "count")
+
+
+def _node_vars(m, f, fnode):
+    """local names that hold a parse-tree node: assigned from a call of a rule class or of a class variable (`cls(reader)`)"""
+    out = set()
+    class_vars = {"cls", "subcls", "klass", "class_", "end_match", "startcls", "endcls"}
+    for n in A.body_nodes(fnode):
+        if isinstance(n, ast.Assign) and isinstance(n.value, ast.Call) and isinstance(n.value.func, ast.Name):
+            callee = n.value.func.id
+            is_cls = callee in class_vars
+            if not is_cls and m is not None and f is not None:
+                k = m.class_of_name(f, callee)
+                is_cls = bool(k) and m.issub_name(k, "Base")
+            if is_cls:
+                for t in n.targets:
+                    out.update(A.assigned_names(t))
+    return out
+
+
+def _eq_sites(m, f, fnode, in_node_class):
+    nodes = _node_vars(m, f, fnode)
+    if in_node_class:
+        nodes.add("self")
+    sites = []
+    for n in A.body_nodes(fnode):
+        if isinstance(n, ast.Call) and isinstance(n.func, ast.Attribute) and n.func.attr in EQ_LIST_OPS and len(n.args) >= 1 \
+                and isinstance(n.args[0], ast.Name) and n.args[0].id in nodes:
+            sites.append((n, "`%s`" % A.text(n)[:60], n.args[0].id))
+        if isinstance(n, ast.Compare) and len(n.ops) == 1 and isinstance(n.ops[0], (ast.In, ast.NotIn)) \
+                and isinstance(n.left, ast.Name) and n.left.id in nodes and not isinstance(n.comparators[0], (ast.Tuple, ast.Constant)):
+            sites.append((n, "`%s`" % A.text(n)[:60], n.left.id))
+    return sites
+
+
+def node_identity_rule(m, rid):
+    r = RuleResult(rid, "parse-tree nodes compare by value (two statements with the same text are equal), so a node is never looked up in "
+                        "a collection with an equality-based operation (list.remove / index / count, `in`): that finds the first node "
+                        "with the same text, not the node meant, and the tree ends up holding one node twice or losing another")
+    # the detector must see its own positive example on every run (the expected count on the tree is zero)
+    sample = ast.parse("def match(reader):\n    content = []\n    obj = cls(reader)\n    content.append(obj)\n    content.remove(obj)\n"
+                       "    if obj in content:\n        pass\n").body[0]
+    if len(_eq_sites(None, None, sample, False)) != 2:
+        r.error("the detector no longer recognises its positive example")
+        return r
+    r.floor = 300
+    for (p, q), f in sorted(m.funcs.items()):
+        pp = p.replace("\\", "/")
+        if "/tests/" in pp or "/two/" not in pp:
+            continue
+        r.instances += 1
+        in_node_class = False
+        if f.cls_node is not None:
+            k = m.key(f.cls_node.name, f.module) if hasattr(f, "module") else None
+            try:
+                in_node_class = bool(k) and m.issub_name(k, "Base")
+            except Exception:
+                in_node_class = False
+        sites = _eq_sites(m, f, f.node, in_node_class)
+        r.ob(not sites, ("%s: no equality-based look-up of a node" % q) if r.obligations % 100 == 0 else None)
+        for n, text, var in sites[:2]:
+            r.fail("%s|node-equality|%s" % (q, A.text(n)[:40]), "%s looks the node `%s` up by equality (%s): nodes with the same text are "
+                   "equal, so with two such statements in the collection the operation lands on the first one -- the wrong node is "
+                   "removed / the wrong position is used, and the resulting tree holds a node twice or is missing one"
+                   % (q, var, text), m.loc(f, n))
+    return r
